@@ -24,7 +24,8 @@ PROP = 'C05'
 TITLE = 'Nothing that requires validation reaches the application unvalidated'
 LEAN_TARGETS = ['NdnProofs.Props.C05']
 THEOREMS = ['Ndn.C05.' + t for t in (
-    'data_only_if_accepted', 'other_verdict_failure', 'every_verdict_decides', 'validator_late_timeout',
+    'data_only_if_accepted', 'other_verdict_failure', 'every_verdict_decides', 'resolve_awaited', 'validator_late_timeout',
+    'tie_data_only_if_accepted',
     'interest_digest_gate', 'interest_validated_before_handler_v2', 'interest_validated_before_handler_v1',
     'interest_rejected_by_verdict', 'plain_interest_no_validator')]
 PARTIAL = {}
@@ -36,7 +37,8 @@ TRUSTED = c03.TRUSTED + [
     'params_sha256_checker is observed through a logging wrapper installed by the harness',
 ]
 RULE = ('(a) the event histories of C03 (incl. its hardening dimensions: parameterised / signed Interests, MustBeFresh, '
-        'need_raw_packet, Data inside LpPackets, bursts in one loop turn, lifetime 0, late awaits) with validator verdicts drawn from all ValidResult values / truthiness and the '
+        'need_raw_packet, Data inside LpPackets, bursts in one loop turn, lifetime 0, no_response, late awaits - all of them '
+        'put to the model, ties as membership in the set of outcome vectors it allows) with validator verdicts drawn from all ValidResult values / truthiness (v2: also values that are no ValidResult member - False, None, 0, True, the string PASS - which must not deliver) and the '
         'raising ones, latencies straddling the deadline, judged strictly; (b) every combination of ApplicationParameters '
         '/ signature presence x digest correct or corrupted x signature valid or corrupted x route none / without '
         'callback / with or without validator x every scripted answer x latency, both front-ends; digest component '
@@ -44,7 +46,7 @@ RULE = ('(a) the event histories of C03 (incl. its hardening dimensions: paramet
         'removed and made again (reattach) with an intruder validator of the opposite verdict. non-trivial = a '
         'history in which some validator ran, or a gate case with parameters or signature; distinct = distinct cases')
 
-V2_ALL = ['PASS', 'ALLOW_BYPASS', 'FAIL', 'TIMEOUT', 'SILENCE', 'RAISE_TIMEOUT', 'RAISE_OTHER']
+V2_ALL = ['PASS', 'ALLOW_BYPASS', 'FAIL', 'TIMEOUT', 'SILENCE', 'RAISE_TIMEOUT', 'RAISE_OTHER'] + list(c03.B_VALUES)
 V1_ALL = ['PASS', 'FAIL', 'NONE', 'ZERO', 'ONE', 'RAISE_TIMEOUT', 'RAISE_OTHER']
 V1_HIST = V1_ALL + ['DEFAULT']
 F15_KEY = 'v1-validator-outlives-lifetime-and-still-decides'
@@ -229,7 +231,8 @@ def run_gate(case):
                 if fe == 'v2':
                     async def validator(name, sig, ctx):
                         await script()
-                        return types.ValidResult[spec['verdict']]
+                        v = spec['verdict']
+                        return c03.B_VALUES[v] if v in c03.B_VALUES else types.ValidResult[v]
                 else:
                     async def validator(name, sig):
                         await script()
@@ -292,9 +295,14 @@ def run_gate(case):
                         except ValueError:
                             pass
             loop.advance(c03.T0 + 0.010)
-            rig.deliver(wire)
+            rx = loop.create_task(rig.face.callback(rig._typ(wire), wire))      # as the faces do; kept, so that
+            loop.settle()                                                        # whatever escapes it is seen
             loop.advance(c03.T0 + 0.500)
             errs = [list(e) for e in loop.errors if e[0] not in ('ScriptedError', 'TimeoutError')]
+            if not rx.done():
+                errs.append(['NeverFinished', 'reception task'])
+            elif not rx.cancelled() and rx.exception() is not None:
+                errs.append([type(rx.exception()).__name__, 'reception task'])
         finally:
             sec_mod.params_sha256_checker, app_mod.params_sha256_checker = saved
     return {'log': log, 'acts': ''.join(k for k, _ in log), 'loop_errors': errs}
@@ -440,9 +448,11 @@ def finding_key(case, impl, why):
     return c03.finding_key(case, impl, why)
 
 
-LEVEL_TEXT = ('Lean 4 theorems (a) over the pending-Interest model of C03, whose Interests carry the supplied validator as a '
+LEVEL_TEXT = ('Lean 4 theorems (a) over the pending-Interest model of C03 (incl. lifetime 0, late awaits, no_response and the '
+              'linearisations of same-turn ties), whose Interests carry the supplied validator as a '
               'script (verdict, latency): a payload is returned only if a matching Data was taken in time and that validator '
-              'accepted it (v2: and finished before the deadline); a validation failure carries the taken Data and the '
+              'accepted it (v2: and finished before the deadline; in every linearisation of a tie: tie_data_only_if_accepted); '
+              'a validation failure carries the taken Data and the '
               'validator\'s non-accepting verdict; each of the five ValidResult values decides as specified; a validator '
               'still running at the deadline yields a timeout (v2); (b) over a model of the incoming-Interest gate: wrong '
               'parameters digest => dropped before any validator; parameterised/signed Interests reach the handler only '
